@@ -178,6 +178,38 @@ def gen_bput_reuse():
     return out
 
 
+def gen_bput_exact():
+    """buffered puts whose memory type and external type differ in size, through vara and varn: the space a request takes is its size in the
+    file's type; attached exactly that much it is accepted (and a further one-element put refused), attached one byte less it is refused"""
+    out = []
+    pairs = [('double', D.NC_FLOAT), ('float', D.NC_DOUBLE), ('int', D.NC_BYTE), ('short', D.NC_INT), ('longlong', D.NC_SHORT), ('int', D.NC_INT)]
+    for mem, xt in pairs:
+        for form in ('vara', 'varn'):
+            need = 5 * D.XT_SIZE[xt]
+            for attach in (need, need - 1):
+                s = Script('ABUF-exact-%s-x%d-%s-%d' % (mem, xt, form, attach - need), 1, 2, [('x', 12)], [('v', xt, [0])])
+                s.put('*', 0, form='var', coll=1, tag=70, scale=1)
+                s.op('*', 'buffer_attach', size=attach)
+                fits = attach >= need
+                kw = dict(form='varn', boxes=[([0], [2]), ([4], [3])]) if form == 'varn' else dict(form='vara', start=[1], count=[5])
+                ln, idx, vals = s.put('*', 0, nb='b', req=0, tag=11, mem=mem, scale=1, update=False, expect_rc=0 if fits else D.NC_EINSUFFBUF, **kw)
+                def usage(want, when):
+                    lu = s.op('*', 'inq_buffer_usage', f=0)
+                    s.add_expect(lu, lambda o, rk, lu=lu, want=want, when=when: None if int(o.get('n', -1)) == want else (('busage', 'inq_buffer_usage', when), 'line %d: usage %s, the pending buffered puts take %d bytes' % (lu, o.get('n'), want)))
+                usage(need if fits else 0, 'after a converting bput')
+                if fits:
+                    s.put('*', 0, [9], [1], None, form='vara', nb='b', req=1, tag=12, mem=mem, scale=1, update=False, expect_rc=D.NC_EINSUFFBUF)
+                    usage(need, 'after a refused bput')
+                    s.op('*', 'wait', f=0, kind='ALL', all=1)
+                    s.model.put_idx(0, idx, vals)
+                    usage(0, 'after wait_all')
+                s.get_all('*', 0, coll=1, what='file content after a converting buffered put')
+                s.op('*', 'buffer_detach')
+                s.finish()
+                out.append(s)
+    return out
+
+
 # ---------------------------------------------------------------- attached-buffer accounting (BFS)
 def abuf_init():
     m = FileModel(1)
@@ -237,7 +269,7 @@ def main(tier=None):
     ck = Check('C13', 'model_checking', tier)
     b = build.build('plain')
     thorough = ck.tier == 'thorough'
-    scripts = gen_buffers(thorough) + gen_buffers_mp(thorough) + gen_bput_reuse()
+    scripts = gen_buffers(thorough) + gen_buffers_mp(thorough) + gen_bput_reuse() + gen_bput_exact()
     results = runner.run_cases(b['vx'], [s.case for s in scripts], batch=2, timeout=600)
     nev = 0
     for s, r in zip(scripts, results):
@@ -254,7 +286,7 @@ def main(tier=None):
     ck.cov['distinct_nontrivial'] = ck.cov.get('states', 0)
     ck.cov['rule'] = ('(a) request sizes on both sides of the 4096-byte in-place-swap threshold x external types needing swap x same/converting memory type x buffer datatypes {contiguous, vector with gaps, indexed, resized} x padded imap x nc_in_place_swap {auto,enable,disable} '
                       'x exit path {blocking, iput+wait_all, iput+cancel, bput+wait_all, bput+overwrite-after-post, put_varn, iput_varn+wait, put_vard, NC_ERANGE return, NC_EIOMISMATCH return, independent wait}: write buffers byte-identical afterwards, file holds posting-time '
-                      'values, reads modify exactly the type-map bytes; the blocking / flexible / iput / varn / record-variable writes again on 2-4 processes with intra-node aggregation (1 or 2 aggregators) and in-place swap auto / forced. (a2) bput A, bput B, only A served or cancelled, bput C, B and C completed in either order or together, five size triples: the file holds the posting-time values of every buffered write. (b) BFS over buffer_attach(40|100|0)/bput(sizes)/iput/wait_all and cancel of each pending request and of all/detach; usage, size, pending count and refusal compared with the model after every step.')
+                      'values, reads modify exactly the type-map bytes; the blocking / flexible / iput / varn / record-variable writes again on 2-4 processes with intra-node aggregation (1 or 2 aggregators) and in-place swap auto / forced. (a2) bput A, bput B, only A served or cancelled, bput C, B and C completed in either order or together, five size triples: the file holds the posting-time values of every buffered write. (a3) buffered puts with a memory type narrower / wider than the external type through vara and varn, attached-buffer size exactly the external size of the request and one byte less: accepted / refused, usage, a further put refused, data. (b) BFS over buffer_attach(40|100|0)/bput(sizes)/iput/wait_all and cancel of each pending request and of all/detach; usage, size, pending count and refusal compared with the model after every step.')
     ck.assumptions += ['attached-buffer sizes 40 and 100 bytes, depth bound %d' % bfs.maxdepth]
     runner.cleanup()
     return ck.finish(min_eval=300, min_outcomes=10)
